@@ -61,15 +61,15 @@ Section Sound.
     match mk with
     | MWith | MOff | MAbove | MBelow | MFork | MBracket | MTry | MDipN _
     | MReduce | MScan | MFold | MRows | MEach | MInventory | MTable | MTuples | MGroup | MPartition
-    | MSpawn | MPool => true
+    | MSpawn | MPool | MRepeat => true
     | _ => false end.
   (** modifiers checked in context whose run-time form uses the stored signature *)
   Definition needs_exact (mk : modk) : bool :=
-    match mk with MBy | MRows | MEach | MInventory => true | _ => false end.
+    match mk with MBy | MRows | MEach | MInventory | MRepeat => true | _ => false end.
   Definition is_iter (mk : modk) : bool :=
     match mk with
     | MReduce | MScan | MFold | MRows | MEach | MInventory | MTable | MTuples | MGroup | MPartition
-    | MSpawn | MPool => true
+    | MSpawn | MPool | MRepeat => true
     | _ => false end.
 
   (** the tree invariant the compiler is expected to establish (validated on real compiler
@@ -350,6 +350,33 @@ Section Sound.
       repeat split; auto; congruence.
   Qed.
 
+
+  Lemma vao_vpop1 a o v : vao a o (vpop 1 v) = vao (1 + a) o v.
+  Proof.
+    Transparent vao vpop vpush. destruct v as [hv mv]. unfold vao, vpop, vpush; simpl. Opaque vao vpop vpush.
+    f_equal; lia.
+  Qed.
+  Lemma vpop_vao_lt a o v : a < o -> vpop a (vao a o (vpop 1 v)) = vao (1 + a) (o - a) v.
+  Proof.
+    intros Hlt.
+    Transparent vao vpop vpush. destruct v as [hv mv]. unfold vao, vpop, vpush; simpl. Opaque vao vpop vpush.
+    f_equal; lia.
+  Qed.
+
+  Lemma body_frames_without_fill fuel sg f (B U : list sval) H :
+    framed_at fuel sg f -> sua sg = 0 -> suo sg = 0 ->
+    body_frames (without_fill_body (exec fuel f)) (sa sg) (so sg) B U H.
+  Proof.
+    intros Fr U1 U2 s0 l E1 El E2 E3. unfold without_fill_body.
+    set (s1 := {| stk := stk s0; und := und s0; fills := fills s0; fbs := length (fills s0) :: fbs s0; depth := depth s0 |}).
+    pose proof (body_frames_of_framed fuel sg f B U (hid s1) Fr U1 U2 s1 l E1 El E2 eq_refl) as Hb.
+    destruct (exec fuel f s1) as [s'|c s'| |]; auto.
+    - destruct Hb as (outs & A1 & A2 & A3 & A4). exists outs. cbn [stk und]. repeat split; auto.
+      unfold hid in *. cbn [fills fbs depth s1] in *. inversion A4 as [[H1 H2 H3]]. rewrite H2, H3. cbn [tl]. rewrite H1. exact E3.
+    - destruct Hb as (j & uj & A1 & A2 & A3). exists j, uj. cbn [stk und]. repeat split; auto.
+      unfold hid in *. cbn [fills fbs depth s1] in *. inversion A3 as [[H1 H2 H3]]. rewrite H2, H3. cbn [tl]. rewrite H1. exact E3.
+  Qed.
+
   (** every iterating modifier of the model, from the frame property of its operand *)
   Lemma iter_mod_post fuel : P fuel -> asm_ok ->
     forall mk sg f d e e' init uinit s, is_iter mk = true ->
@@ -370,6 +397,19 @@ Section Sound.
       rewrite Es. eapply handle_sig_noU; eauto. }
     cbn [vnode] in Hv. destruct (MAX_NODE_DEPTH <? d); [discriminate|].
     destruct mk; try discriminate Hi; cbn [map fst snd opt_bind] in Hv; cbn [Exec.exec iter_ao mk_tag].
+    - (* Repeat *)
+      destruct (vnode (S d) f (epop 1 (sk, un))) as [e1|] eqn:E1; cbn [opt_bind] in Hv; [|discriminate].
+      specialize (Hex eq_refl). inversion Hex as [|? ? (e0 & V0 & Es) _]; subst; cbn [fst snd] in *.
+      assert (S1p : wfe (epop 1 (sk, un))).
+      { split; cbn [epop fst snd]; [apply wfv_vpop|]; eapply sim_nonneg; eauto. }
+      rewrite (vnode_ctx f (S d) (epop 1 (sk, un)) e1 e0 S1p E1 V0) in Hv.
+      rewrite Es in Hv. unfold epop in Hv. cbn [fst snd] in Hv.
+      rewrite (handle_sig_noU sg (vpop 1 sk) un _ _ U1 U2 S2) in Hv. cbn [fst snd] in Hv.
+      destruct (sa sg <? so sg) eqn:Elt; inversion Hv; subst; clear Hv; cbn [fst snd] in *.
+      + apply Nat.ltb_lt in Elt. rewrite vpop_vao_lt in * by auto.
+        apply iter_exec_post; auto. eapply body_frames_without_fill; eauto.
+      + rewrite vao_vpop1 in *.
+        apply iter_exec_post; auto. eapply body_frames_without_fill; eauto.
     - (* Reduce *) inversion Hv; subst; clear Hv. cbn [handle_ao fst snd] in *.
       apply iter_exec_post; auto; try (eapply body_frames_of_framed; eauto).
     - (* Scan *) inversion Hv; subst; clear Hv. cbn [handle_ao fst snd] in *.
